@@ -14,6 +14,7 @@
 #define WF_DUMPLF    32  /* dump all variables whenever an LF is consumed */
 #define WF_BRACKET   64  /* bracket every locking API call with snapshots (C16) */
 #define WF_C01MON    128 /* streaming C01 monitor: result codes vs terminated lines, no read-ahead (no events / HOLD in such runs) */
+#define WF_SAMPLE_LOCKED 256 /* with WF_SAMPLE: sample cat_is_busy / cat_is_hold after every step even when a mutex is configured (extra lock/unlock pairs) */
 #define WF_KEEP      256 /* w_run does not need the final variables again: nothing (reserved) */
 
 /* action kinds */
